@@ -223,7 +223,7 @@ def cmd_check(prop, tier, seed, replay=None, budget=None, nshards=None):
     results, notes = run_shards(prop, tier, seed, ns, budget, timeout)
     m = merge(results)
     open_sigs, listed, unlisted = match_known(prop, m["violations"], known)
-    listed_counts = {sig: len(vs) for sig, vs in listed.items()}
+    listed_counts = {sig: sum(int(v.get("count", 1)) for v in vs) for sig, vs in listed.items()}
 
     rc = 0
     # essential antecedents: a run that never reached the rule's antecedent decides nothing
@@ -249,7 +249,7 @@ def cmd_check(prop, tier, seed, replay=None, budget=None, nshards=None):
                     f.write(rep)
                 else:
                     json.dump(rep, f)
-            print("VIOLATION property=%s replay=%s rule=%s signature=%s count=%d" % (prop, path, v["rule"], sig, len(vs)))
+            print("VIOLATION property=%s replay=%s rule=%s signature=%s count=%d" % (prop, path, v["rule"], sig, sum(int(x.get("count", 1)) for x in vs)))
             print("  detail: %s" % v["detail"][:600])
         rc = 1
     elif not results or missing or (m["evaluations"] == 0):
@@ -260,7 +260,7 @@ def cmd_check(prop, tier, seed, replay=None, budget=None, nshards=None):
     status = {0: "HELD", 1: "VIOLATED", 2: "INCONCLUSIVE"}[rc]
     print("%s property=%s tier=%s seed=%s histories=%d steps=%d evaluations=%d distinct=%d unlisted_violations=%d known_reproduced=%d wall=%.1fs"
           % (status, prop, tier, seed, m["histories"], m["steps"], m["evaluations"], len(m["distinct"]), len(unlisted), sum(listed_counts.values()), wall))
-    for n in notes[:10]:
+    for n in (notes + m["inconclusive"])[:10]:
         print("  note: %s" % n)
     return rc
 
